@@ -109,25 +109,7 @@ func runC17(c *Ctx) {
 			}
 		}
 		// the entry's metadata is that of THIS iteration: nil or metadatas[i], never a value carried round the loop
-		var isCarried func(y *X, d int) bool
-		isCarried = func(y *X, d int) bool {
-			ph, ok := y.V.(*ssa.Phi)
-			if !ok || y.Op != "phi" || d > 4 {
-				return false
-			}
-			for _, p := range ph.Block().Preds {
-				if ph.Block().Dominates(p) {
-					return true
-				}
-			}
-			for _, a := range y.Args {
-				if isCarried(a, d+1) {
-					return true
-				}
-			}
-			return false
-		}
-		carried := isCarried(xmd, 0)
+		carried := loopCarried(xmd, 0)
 		c.Check(!carried, "C17.G2-loops-agree", f.Name+" › entry metadata is per iteration", cs.In.Pos(), "the metadata paired with providers[i] is nil or metadatas[i]", "the metadata paired with an extended provider is carried over from the previous iteration when its own is missing: providers beyond the end of a shorter metadata list inherit another provider's metadata instead of the looked-up one")
 		// provider: copy of PROV[i] with the same index; lists are siblings
 		pv := fs["Provider"]
@@ -373,4 +355,24 @@ func sortStrings(s []string) {
 			s[j], s[j-1] = s[j-1], s[j]
 		}
 	}
+}
+
+// loopCarried: one of the alternatives of value y (through phis) is a value
+// carried round a loop — a phi in a loop header.
+func loopCarried(y *X, d int) bool {
+	ph, ok := y.V.(*ssa.Phi)
+	if !ok || y.Op != "phi" || d > 4 {
+		return false
+	}
+	for _, p := range ph.Block().Preds {
+		if ph.Block().Dominates(p) {
+			return true
+		}
+	}
+	for _, a := range y.Args {
+		if loopCarried(a, d+1) {
+			return true
+		}
+	}
+	return false
 }
